@@ -131,12 +131,10 @@ fn fw_decimal() {
 fn fw_interval_md() {
     fw_roundtrip::<Interval>(Interval::from_md(kani::any(), kani::any()));
 }
-/// Intervals with a non-zero sub-day part (reachable through `cast('2 hours' as interval)`).
+/// Every interval, sub-day part included (reachable through `cast('2 hours' as interval)`).
 #[kani::proof]
 fn fw_interval_subday() {
-    let secs: i32 = kani::any();
-    kani::assume(secs > -2_000_000 && secs < 2_000_000 && secs != 0);
-    let x = Interval::from_secs(secs);
+    let x = Interval::from_mdms(kani::any(), kani::any(), kani::any());
     fw_roundtrip::<Interval>(x);
 }
 
